@@ -824,6 +824,10 @@ def CheckProofOfWork(hash, nBits):
 
     Raises CheckProofOfWorkError
     """
+    # The compact format is sign-magnitude; a set sign bit never denotes a
+    # valid (positive) target
+    if nBits & 0x00800000:
+        raise CheckProofOfWorkError("CheckProofOfWork() : nBits is negative")
     target = uint256_from_compact(nBits)
 
     # Check range
